@@ -544,7 +544,7 @@ Qed.
 
 Lemma observe_reach s e s' : observe s e = Some s' -> exists os, s' = exec s os.
 Proof.
-  destruct e as [i| | | |i|i start|i|i|i|i|i|i k cancelled|i]; simpl; intros H;
+  destruct e as [i| | | |i|i start|i|i|i|i|i|i k cancelled|i k|i]; simpl; intros H;
     try (eexists; apply try_reach; exact H).
   - destruct (i =? length (invs s)); [|discriminate]. eexists. apply try_reach. exact H.
   - destruct (try s (Act i Decide)) as [s1|] eqn:E; [|discriminate].
